@@ -195,6 +195,7 @@ pub fn run(cfg: &Cfg) {
     let pool = key_pool(1);
     let n = if cfg.thorough { 6000 } else { 500 };
     for i in 0..n {
+        let mut r = r.at(i as u64);
         // ---- value level: everything obtainable from the builders
         let layout = gen_layout(&mut r, &pool);
         round_trip::<LayoutMetadata>(&mut sink, "LayoutMetadata", &layout);
